@@ -3,7 +3,7 @@ HOOK_COMMITS = ['621a573', '7ae3ccb', 'fa7b761']
 ENGINES = [
     dict(name='verus-extract', path='/verif/vlib', serves_properties=['C04', 'C05', 'C06', 'C08', 'C12', 'C13', 'C14', 'C15', 'C17', 'C20'],
          kind_free_text='Verus 0.2026.09.13 on functions extracted mechanically from /repo on every run, contracts injected from /verif/units/<unit>/unit.rs'),
-    dict(name='kani-contracts', path='/verif/kani', serves_properties=['C01', 'C02', 'C03', 'C06', 'C07', 'C10', 'C11', 'C15', 'C16', 'C17', 'C18', 'C19', 'C20'],
+    dict(name='kani-contracts', path='/verif/kani', serves_properties=['C01', 'C02', 'C03', 'C06', 'C07', 'C08', 'C10', 'C11', 'C15', 'C16', 'C17', 'C18', 'C19', 'C20'],
          kind_free_text='Kani 0.68 function contracts (proof_for_contract) and loop-free full-domain harnesses on the real crates of /repo (path dependencies), CBMC 6.11'),
 ]
 NOTES = ('Contract-based deductive verification. exit 0 = all obligations discharged; exit 1 = VIOLATION; '
@@ -14,9 +14,9 @@ NOT_APPLICABLE = {
 CHECKS = {
     'C13': dict(
         engine='verus-extract', category='proof',
-        technique='Verus: SharedNode::{next_frame, pending_frames, drop_output} extracted and verified against an abstract view, with contract-only stand-ins for BTreeMap/VecDeque; inductive-step lemmas with a ghost history',
+        technique='Verus: SharedNode::{next_frame, pending_frames, drop_output}, Bus::send and the Output methods extracted and verified against an abstract view, with contract-only stand-ins for BTreeMap/VecDeque; inductive-step lemmas with a ghost history',
         text='The three functions that hold the bus logic are verified (on the extracted text, six std-iterator/indexing expressions read through stand-in helper methods) to preserve the invariant "every read count is within the backlog and, when the backlog is non-empty, some live output has read none of it" and to meet a per-call contract: an output at the end of the backlog pulls exactly one source frame, any other output pulls none and receives backlog[its count]; the oldest frame is released exactly when the caller was the only output still needing it; dropping an output trims the backlog to what the slowest remaining output needs (empty when none remain). lemma_bus_next shows from this contract that every output observes the common history at its own position without loss, duplication or reordering and that the source is pulled once per distinct frame; pending count == frames pulled but not yet received.',
-        note='ASSUMED: contracts of the std collections (stand-ins) and of the six substituted iterator expressions; NOT verified: Bus::send, Output/Drop plumbing (Rc<RefCell>). Proof of the step relation from every state satisfying the invariant (covers every finite op sequence through those three functions).',
+        note='ASSUMED: contracts of the std collections (stand-ins) and of the six substituted iterator expressions; Bus::send is verified on its body minus the RefCell borrow line (new output registered at buffer.len() under a fresh key, nothing else changed); the Output methods are verified to forward with their own key; NOT verified: the Rc<RefCell> handle and drop glue. Proof of the step relation from every state satisfying the invariant (covers every finite op sequence through those three functions).',
         design_ref='DESIGN.md §11.9',
     ),
     'C07': dict(
@@ -33,9 +33,9 @@ CHECKS = {
     ),
     'C18': dict(
         engine='kani-contracts', category='model_checking',
-        technique='bounded Kani harnesses on the real Sinc interpolator (state observed through guarded read-only hooks)',
-        text='BOUNDED, PARTIAL: for depth 1..2 (3 in the thorough tier) and every number 0..=depth+2 of fed frames with symbolic finite contents: next_source_frame pushes exactly one frame and idx counts up to depth; interpolate performs no index underflow, out-of-range access or panic (x in {0, 0.5}; symbolic x in [0,1) in the thorough tier); reset restores idx = 0, first = 0 and all-equilibrium frames; Sinc::new rejects odd lengths. The numeric clauses of C18 (1e-12 transparency, linearity, finiteness, 1 % constant reproduction) are NOT decided.',
-        note='Numeric clauses out of reach: they depend on libm sin/cos, stubbed here by arbitrary values in [-1,1]. Bounded depth and history. Model checking, not proof.',
+        technique='bounded Kani harnesses on the real Sinc interpolator (state observed through guarded read-only hooks); ratio-1 transparency under an assumed, tabulated contract on libm sin/cos at the arguments reached for x == 0',
+        text='BOUNDED, PARTIAL: for depth 1..2 (3 in the thorough tier) and every number 0..=depth+2 of fed frames with symbolic finite contents: next_source_frame pushes exactly one frame and idx counts up to depth; interpolate performs no index underflow, out-of-range access or panic (x in {0, 0.5}; symbolic x in [0,1) in the thorough tier); reset restores idx = 0, first = 0 and all-equilibrium frames; Sinc::new rejects odd lengths. Transparency at ratio exactly 1: after K fed frames interpolate(0.0) yields the frame fed depth frames earlier (silence while priming) EXACTLY for every i32 history and within 1e-12 x peak for every finite f64 history, depth 1..2 (3 thorough). Linearity, finiteness and the 1 % constant reproduction are NOT decided.',
+        note='sin/cos are stubbed: arbitrary values in [-1,1] for the safety harnesses; for the transparency harnesses the glibc values at k*PI and k*PI/depth (ASSUMED contract on libm, listed in the evidence), arbitrary elsewhere. Bounded depth and history. Model checking, not proof.',
     ),
     'C10': dict(
         engine='kani-contracts', category='model_checking',
@@ -45,20 +45,20 @@ CHECKS = {
     ),
     'C11': dict(
         engine='kani-contracts', category='proof',
-        technique='Kani bit-precise full-domain harnesses on the no_std build of dasp_sample (exact mantissa/exponent comparison); Verus unit rms where built',
-        text='PARTIAL: decides the no_std square-root clause of C11: for every finite normal x >= 0 the approximation reached through FloatSample::sample_sqrt (dasp_sample built with default-features = false) satisfies 0.93^2 x <= r^2 <= 1.07^2 x, for f32 and f64, is at most 1e-18 for zero and subnormal input and NaN for negative input. The running-sum invariant of the windowed RMS is decided only if the Verus unit rms is present (see evidence).',
-        note='Not claimed: rigorous float error bound of the running sum, NaN-freedom in float arithmetic. -0.0 excluded (unreachable from a mean of squares).',
+        technique='Kani bit-precise full-domain harnesses on the no_std build of dasp_sample (exact mantissa/exponent comparison); bounded Kani harnesses on the real Rms over dyadic samples (exact arithmetic) for the window clause',
+        text='PARTIAL: decides the no_std square-root clause of C11: for every finite normal x >= 0 the approximation reached through FloatSample::sample_sqrt (dasp_sample built with default-features = false) satisfies 0.93^2 x <= r^2 <= 1.07^2 x, for f32 and f64, is at most 1e-18 for zero and subnormal input and NaN for negative input. BOUNDED part: for window lengths 1..3, histories of up to N+2 frames with an optional reset, also starting from a non-zero window, the output EQUALS the root of the mean of the last N squares (earlier ones counted as zero) for dyadic samples whose squares and sums are exact in f32.',
+        note='Not claimed: unbounded window length / history (no Verus unit rms), rigorous float error bound of the running sum, NaN-freedom in float arithmetic. -0.0 excluded (unreachable from a mean of squares).',
     ),
     'C19': dict(
         engine='kani-contracts', category='proof',
-        technique='Kani full-domain harnesses per sample format for the rectifiers; (Verus unit envelope where built)',
-        text='PARTIAL: decides the rectifier clause of C19: for all 14 formats and every sample whose negated signed amplitude is representable, full_wave yields |signed amplitude| about equilibrium, positive/negative half-wave yield the sample limited to the upper/lower side of equilibrium, per channel, also through the FullWave/PositiveHalfWave/NegativeHalfWave Rectifier types. The one-pole envelope clauses are decided only if the Verus unit envelope is present (see evidence).',
-        note='Envelope follower update (gain selection, no overshoot) not decided unless unit envelope is listed in the evidence.',
+        technique='Kani full-domain harnesses per sample format for the rectifiers; Kani bit-precise harnesses on the real Detector (gains read through a guarded hook) for the envelope clauses',
+        text='PARTIAL: decides the rectifier clause of C19: for all 14 formats and every sample whose negated signed amplitude is representable, full_wave yields |signed amplitude| about equilibrium, positive/negative half-wave yield the sample limited to the upper/lower side of equilibrium, per channel, also through the FullWave/PositiveHalfWave/NegativeHalfWave Rectifier types. Envelope follower (f32 frames, dyadic inputs so that differences are exact): a time of 0 frames gives gain exactly 0 and the envelope equals the detected value; any time in [1/8, 1e6] frames gives a gain in (0,1); set_attack/release_frames change only that gain and no past output; the attack/release choice is made PER CHANNEL on 2-channel frames (bit-exact rule where the chosen gain is 0, between-ness and use of the non-zero gain otherwise); thorough tier: new_env == d + g (env - d) bit-exactly from every state reachable in one step.',
+        note='The VALUE exp(-1/frames) is libm powf and not verified. Envelope harnesses are bounded to two steps from the initial state with concrete attack/release times (3, 7, 0 frames); no Verus unit envelope (unbounded histories follow from the per-step rule, which is checked from reachable states only).',
     ),
     'C17': dict(
         engine='verus-extract', category='proof',
-        technique='Verus over idealised reals (Step/Phase/Sine/Saw/Square contracts, congruence lemma) + Kani bit-precise full-domain harnesses (noise for every seed; phase wrap, saw, square from every phase state via a guarded hook)',
-        text='Phase::next_phase(_wrapped_to) is verified to yield the current phase and advance it by exactly one step of its step source, wrapped into [0, rem) and congruent to phase + step (real modulus); Hz::step consumes exactly one frequency frame and yields frequency / rate; Sine/Saw/Square yield sin(2 pi p), 1 - 2p, +-1 by half-cycle and advance the phase as Phase does; lemma_phase_accumulates: the phase after n frames is the sum of steps mod 1. Kani proves bit-precisely that the noise output is within [-1,1] and never panics for every u64 seed, that the wrapped phase stays in [0,1) from every phase and every finite step, that saw is in (-1,1] and square is +-1 by half-cycle.',
+        technique='Verus over idealised reals (Step/Phase/Sine/Saw/Square contracts, congruence lemma) + Kani bit-precise full-domain harnesses (noise for every seed; phase wrap, saw, square from every phase state via a guarded hook; step == correctly rounded hz / rate for concrete rates)',
+        text='Phase::next_phase(_wrapped_to) is verified to yield the current phase and advance it by exactly one step of its step source, wrapped into [0, rem) and congruent to phase + step (real modulus); Hz::step consumes exactly one frequency frame and yields frequency / rate; Sine/Saw/Square yield sin(2 pi p), 1 - 2p, +-1 by half-cycle and advance the phase as Phase does; lemma_phase_accumulates: the phase after n frames is the sum of steps mod 1. Kani proves bit-precisely that the noise output is within [-1,1] and never panics for every u64 seed, that the wrapped phase stays in [0,1) from every phase and every finite step, that saw is in (-1,1] and square is +-1 by half-cycle, and that ConstHz / Hz steps are bit-for-bit the correctly rounded quotient hz / rate for rate 49 (every finite f32-valued frequency; rate 44100 and every f64 frequency in the thorough tier).',
         note='Phase arithmetic PROVED OVER EXACT REALS (T4) with the wrapped range also proved bit-precisely. sin assumed to be the sine. NOT claimed: simplex noise amplitude; purity of the noise is bounded to 768 seeds (c17_b_noise_pure).',
     ),
     'C20': dict(
@@ -69,9 +69,9 @@ CHECKS = {
     ),
     'C08': dict(
         engine='verus-extract', category='proof',
-        technique='Verus over idealised real arithmetic (float_as_real axioms): Converter::next loop invariant, Interpolator trait contract, position lemmas',
-        text='Converter::next is verified (extracted text) to pull exactly floor(v) source frames, feed them to the interpolator in order, evaluate it at v - floor(v) and advance v by the ratio in effect; is_exhausted <=> source exhausted and v >= 1. lemma_position_step shows the invariant pulled + v == P_n, hence pulled == floor(P_n) and fraction P_n - floor(P_n), no frame skipped or re-read; MulHz consumes exactly one control frame per output; Floor yields the latest frame, Linear the per-channel blend l + (r - l) x which stays between l and r for 0 <= x < 1 and equals l at x == 0; ratio exactly 1 pulls one frame per output at fraction 0.',
-        note='PROVED OVER EXACT REALS (T4): float rounding of the accumulator is outside the claim. Termination of the pull loop unchecked (T8). The closed-form output count is not claimed. Frame/Sample operation contracts assumed (C03).',
+        technique='Verus over idealised real arithmetic (float_as_real axioms): Converter::next loop invariant, Interpolator trait contract, position lemmas; Kani bit-precise full-domain harnesses for Linear/Floor on integer sample formats',
+        text='Converter::next is verified (extracted text) to pull exactly floor(v) source frames, feed them to the interpolator in order, evaluate it at v - floor(v) and advance v by the ratio in effect; is_exhausted <=> source exhausted and v >= 1. lemma_position_step shows the invariant pulled + v == P_n, hence pulled == floor(P_n) and fraction P_n - floor(P_n), no frame skipped or re-read; MulHz consumes exactly one control frame per output; Floor yields the latest frame, Linear the per-channel blend l + (r - l) x which stays between l and r for 0 <= x < 1 and equals l at x == 0; ratio exactly 1 pulls one frame per output at fraction 0. Kani (integer formats u8, i16, i32, u32, every value): Linear at x == 0 reproduces the left frame exactly, the blend at x = 1/4, 1/2, 3/4 lies between the two frames, feeding shifts right to left, reset silences, Floor holds the last frame for every x.',
+        note='PROVED OVER EXACT REALS (T4): float rounding of the accumulator is outside the claim. Termination of the pull loop unchecked (T8). The closed-form output count is not claimed. Frame/Sample operation contracts assumed (C03). One-LSB closeness of integer blends at x != 0 is only searched natively; i64/u64 frames not covered (53-bit limit of the f64 blend).',
     ),
     'C03': dict(
         engine='kani-contracts', category='proof',
@@ -89,13 +89,13 @@ CHECKS = {
         engine='verus-extract', category='proof',
         technique='Verus: per-call contract of the macro-instantiated branch bodies over an abstract view (queue, pending flag); inductive-step lemma with ghost history and positions',
         text='The four `next` and four `pending_frames` bodies generated by define_branch! are extracted by instantiating the macro arm and verified against a per-call contract (lagging branch pops the oldest waiting frame without touching the source; a branch at the head pulls exactly one source frame and queues it for the other). lemma_fork_step proves that from any state satisfying the fork invariant, any next() whose lead stays within the capacity yields that branch\'s next frame of the common history, pulls the source iff the branch is at the head, and keeps the invariant; lemma_pending_is_lag: pending count == lag. Holds for every capacity >= 1 and every interleaving (step relation from every state).',
-        note='Assumed: Bounded contracts (C06), Signal contract of the source. NOT verified: Rc/RefCell sharing of by_rc/by_ref (R-refcell).',
+        note='The Bounded queue contracts the unit relies on are discharged on the real bodies in the same check (unit ring_buffer, restricted to push/pop/len/max_len/is_empty/is_full). Assumed: Signal contract of the source. Rc/RefCell sharing of by_rc/by_ref is read through stand-ins (R-refcell).',
     ),
     'C14': dict(
         engine='verus-extract', category='proof',
         technique='Verus: Buffered::next/next_frames verified against the callee CONTRACT of ring_buffer::Bounded and the Signal trait contract; loop invariants with a ghost chain of source states',
         text='Buffered::next is verified to yield the oldest buffered frame without touching the source when the ring buffer is non-empty, and otherwise to pull exactly capacity source frames in order, yield the first and keep the rest; next_frames refills if and only if empty and its iterator pops that very buffer; is_exhausted <=> buffer empty and source exhausted. The precondition is only the ring buffer representation invariant, so every capacity, pre-fill and start offset is covered; the outer loop is proved to terminate.',
-        note='Assumed: Bounded push/pop/len/max_len contracts (verified in unit ring_buffer, C06), Signal trait contract of the source, T3.',
+        note='The Bounded push/pop/len/max_len contracts the unit relies on are discharged on the real bodies in the same check (unit ring_buffer). Assumed: Signal trait contract of the source, T3.',
     ),
     'C01': dict(
         engine='kani-contracts', category='proof',
